@@ -25,6 +25,27 @@ def run(rng, tier, res=None):
         for m in (msgs if isinstance(msgs, list) else [msgs])[:3]:
             res.violations.append({"property": "C20", "what": m, "replay": meta})
 
+    def acc_oracle(labels, preds, acc, meta):
+        """1 - (1/2K) Σ_c [FP_c/(N-n_c) + FN_c/n_c], K = largest identifier + 1; a class absent from the labels has no
+        false-negative term but keeps its false-positive rate; a class holding every sample has no false-positive term."""
+        Kc = max(max(labels), max(preds)) + 1; Nn = len(labels)
+        tot = F(0)
+        for c in range(Kc):
+            nc = labels.count(c)
+            fp = sum(1 for l, p in zip(labels, preds) if l != p and p == c)
+            fn = sum(1 for l, p in zip(labels, preds) if l != p and l == c)
+            if Nn - nc > 0:
+                tot += F(fp, Nn - nc)
+            if nc > 0:
+                tot += F(fn, nc)
+        want = 1 - tot / (2 * Kc)
+        if abs(float(want) - float(acc)) > 1e-12:
+            viol(f"opf_accuracy {float(acc)!r} != {float(want)!r} = 1 - (1/2K) sum(FP/(N-n_c) + FN/n_c) with the classes absent from the labels "
+                 f"keeping their false-positive rate", meta)
+            res.violations.append({"property": "C17", "what": f"the accuracy `learn` ranks its iterations by is {float(acc)!r} for labels {labels[:12]} / "
+                                   f"predictions {preds[:12]}; the OPF accuracy is {float(want)!r}", "replay": meta})
+        res.hit("accuracy_oracle_general")
+
     for case in range(ncases):
         K = rng.choice([1, 2, 2, 3, 3, 4, 5, 6, 6, 17, 26, 40])
         n = rng.randint(max(1, K), max(30, 2 * K))
@@ -60,6 +81,7 @@ def run(rng, tier, res=None):
         if max(preds) >= K:
             # predictions beyond the label range: only opf_accuracy is defined there (no crash, same formula)
             acc = G.opf_accuracy(La, Pa)
+            acc_oracle(labels, preds, acc, meta)
             line = f"acc1 {n} {ints(labels)} {ints(preds)}"
             lines.append(line); obs.append(("TOL", [float(acc)])); metas.append(meta)   # n_class may reach 8: numpy sums pairwise there
             res.add_case(line, nontrivial=True); res.hit("preds_out_of_range")
@@ -94,6 +116,7 @@ def run(rng, tier, res=None):
         except Exception as ex:
             viol(f"evaluation measure raised {type(ex).__name__}: {ex} on in-range labels/predictions", meta)
             continue
+        acc_oracle(labels, preds, acc, meta)
         line = f"acc {n} {ints(labels)} {ints(preds)}"
         cms = " , ".join(" ".join(str(int(v)) for v in row) for row in cm)
         if per is not None:
@@ -147,6 +170,13 @@ def run(rng, tier, res=None):
             A[:, 0] = 2.5          # a constant column (std 0): outside the property's claim
         if rng.random() < 0.3:
             A[:, -1] *= rng.choice([1e-9, 1e-12, 1e6])   # non-constant columns on a very small / large scale
+        offset_col = None
+        if rng.random() < 0.25:
+            # a column with a large common offset and a small spread (timestamps, sensor readings around 100000)
+            offset_col = rng.randrange(d)
+            A[:, offset_col] = rng.choice([1.7e9, 1.0e5, 3.0e7]) + np.array([float(rng.choice([0, 1, 2, 3, 9])) * rng.choice([1.0, 1e-3]) for _ in range(n)])
+            A[0, offset_col] += 5.0 * (1.0 if rng.random() < 0.5 else 1e-3)
+            res.hit("normalize_large_offset_column")
         out = G.normalize(A.copy())
         for j in range(d):
             col = [A[i][j] for i in range(n)]
@@ -155,10 +185,14 @@ def run(rng, tier, res=None):
                 continue
             mean = sum(F(v) for v in col) / n
             var = sum((F(v) - mean) ** 2 for v in col) / n
+            std_ = float(var) ** 0.5
+            cond_ = 16 * 2.3e-16 * max(abs(v) for v in col) / std_      # what rounding of the mean alone can move an entry by
             for i in range(n):
-                wv = float(F(col[i]) - mean) / float(var) ** 0.5
-                if abs(out[i][j] - wv) > 1e-9 * max(1, abs(wv)):
+                wv = float(F(col[i]) - mean) / std_
+                if not (abs(out[i][j] - wv) <= 1e-9 * max(1, abs(wv)) + cond_):
                     viol(f"normalize: entry {out[i][j]} != (value - mean)/std = {wv}", {"column": col})
+            if j == offset_col:
+                continue        # oracle only: the bit-level model comparison is for well-conditioned columns
             line = f"norm {n} {ints(fb(v) for v in col)}"
             lines.append(line); obs.append(("TOL", [out[i][j] for i in range(n)])); metas.append({"column": col})
             res.add_case(line, nontrivial=True); res.hit("normalize_column")
